@@ -274,7 +274,18 @@ def run(prog: Program, rep, tier="quick"):
     rep.ob("R15.4", "crates/pack/src/lib.rs", "bisect_find_sha", "accepted hash lengths are 20 and 32", "sha_len != 20 && sha_len != 32" in bs, "", 0)
     pt = rfs["crates/objects/src/lib.rs"].fns["parse_tree"].text()
     rep.ob("R15.4", "crates/objects/src/lib.rs", "parse_tree", "modes are parsed base 8 in both implementations",
-           "from_str_radix ( text_str . as_str ( ) , 8 )" in pt and "int(mode_text, 8)" in norm(prog.module("dulwich/objects.py").funcs["parse_tree"].node, 100000), "", 0)
+           "from_str_radix ( text_str . as_str ( ) , 8 )" in pt and any(
+               isinstance(c, ast.Call) and isinstance(c.func, ast.Name) and c.func.id == "int" and len(c.args) == 2 and isinstance(c.args[1], ast.Constant) and c.args[1].value == 8
+               for c in ast.walk(prog.module("dulwich/objects.py").funcs["parse_tree"].node)), "", 0)
+    # and the Python side admits only what from_str_radix admits: octal digits (after at most one '+'), within 32 bits
+    ptn = prog.module("dulwich/objects.py").funcs["parse_tree"].node
+    digits_only = any(isinstance(c, ast.Call) and isinstance(c.func, ast.Attribute) and c.func.attr == "strip" and c.args and isinstance(c.args[0], ast.Constant)
+                      and c.args[0].value == b"01234567" for c in ast.walk(ptn)) or any(
+        isinstance(c, ast.Call) and isinstance(c.func, ast.Attribute) and c.func.attr in ("isdigit", "fullmatch", "match", "issuperset") for c in ast.walk(ptn))
+    bound = any(isinstance(c, ast.Compare) and any(isinstance(k, ast.Constant) and k.value in (0xFFFFFFFF, 1 << 32) for k in ast.walk(c)) for c in ast.walk(ptn))
+    rep.ob("R15.4", "dulwich/objects.py", "parse_tree", "the Python mode parser admits octal digits only, within 32 bits (what u32::from_str_radix admits)", digits_only and bound,
+           "int(text, 8) alone also accepts a minus sign, '_', surrounding whitespace, '0o' and values above 32 bits: such a tree parses without the extension "
+           "and raises ObjectFormatException with it", ptn.lineno)
     from sa.common import chunk_boundary_rule
     rep.rule("R15.8", "CHUNKING: loops over an object's chunk list apply only operations that commute with concatenation (the twins chunk "
                       "the output of apply_delta differently)")
